@@ -294,6 +294,7 @@ pub fn advance_shadow(shadow: &mut ModelState, root: &crate::tree::MNode, s: &Se
                 ExpErr::Code(c) => *c,
                 ExpErr::CommandClass => -100,
                 ExpErr::ExecClass => -200,
+                ExpErr::Either(..) => -108,
             };
             st.record_error(&ErrObs {
                 code,
@@ -304,6 +305,7 @@ pub fn advance_shadow(shadow: &mut ModelState, root: &crate::tree::MNode, s: &Se
     }
     st.oper.cond_unknown = false;
     st.ques.cond_unknown = false;
+    st.prefill.clear();
     *shadow = st;
 }
 
@@ -391,6 +393,7 @@ impl Prop for C13 {
             outq: vec![false; controllers as usize],
             plain488: false,
             no_mav: false,
+            prefill: Vec::new(),
         };
         // swarm weights
         let w_ok = *rng.pick(&[1u32, 3, 6]);
